@@ -178,6 +178,14 @@ func VH_C01_RelationDataPath() {
 	}
 	id := vhC01ID()
 	rel := vhNewRelation(vhNSA, id, "bus", members)
+	// the first member's role is any string of the table (so also the one
+	// with index 0), the others' "role"
+	roles := []string{"role", "#route", "bus"}
+	role0 := "role"
+	if n > 0 {
+		role0 = roles[vChoice("role", len(roles))]
+		rel.Members[0].Role = role0
+	}
 	fb := vhRelationBlock(nt, vhNSA, sb, st, []*ingest.RelationFeature{rel})
 	f := &FeaturesByID{base: emptyFeaturesByID{}}
 	f.features[b6.FeatureTypeRelation] = []*featureBlock{fb}
@@ -196,7 +204,11 @@ func VH_C01_RelationDataPath() {
 		m := r.Member(i)
 		vAssert(m.ID.Type == members[i].Type && m.ID.Namespace == members[i].Namespace, "member type and namespace survive")
 		vAssert(m.ID.Value == members[i].Value, "member id survives")
-		vAssert(m.Role == "role", "member role survives")
+		if i == 0 {
+			vAssert(m.Role == role0, "member role survives")
+		} else {
+			vAssert(m.Role == "role", "member role survives")
+		}
 	}
 	// enumeration of the block visits the relation once with its true id
 	it := fb.Map.Begin()
@@ -309,5 +321,112 @@ func VH_C01_PathDataPath() {
 				}
 			}
 		}
+	}
+}
+
+// vhPointEntry is one entry of a point block: a point with its tags (as
+// combinePoints emits it, PointTagFull) or only the references to a point
+// that lives in another file (PointTagReferencesOnly; what an overlay index
+// holds for a base point used by one of its paths).
+type vhPointEntry struct {
+	value    uint64
+	refsOnly bool
+}
+
+func vhPointBlock(nt *NamespaceTable, ns b6.Namespace, sb *encoding.StringTableBuilder, st *encoding.StringTable, entries []vhPointEntry) *featureBlock {
+	builders := make(FeatureBlockBuilders)
+	addFeatureBlockBuilder(builders, b6.FeatureTypePoint, ns, uint64(len(entries)), nt)
+	b := builders[NamespacedFeatureType{Namespace: nt.Encode(ns), FeatureType: b6.FeatureTypePoint}]
+	osm := OSMNamespaces(nt)
+	records := make([][]byte, len(entries))
+	tags := make([]encoding.Tag, len(entries))
+	for i, e := range entries {
+		buf := make([]byte, 128)
+		n := 0
+		if e.refsOnly {
+			refs := PointReferences{Paths: References{Reference{TypeAndNamespace: CombineTypeAndNamespace(b6.FeatureTypePath, nt.Encode(vhNSA)), Value: 7}}}
+			n = refs.Marshal(&osm, buf)
+			tags[i] = PointTagReferencesOnly
+		} else {
+			point := &ingest.GenericFeature{ID: b6.FeatureID{Type: b6.FeatureTypePoint, Namespace: ns, Value: e.value}}
+			point.AddTag(b6.Tag{Key: "#amenity", Value: b6.NewStringExpression("cafe")})
+			point.AddTag(b6.Tag{Key: b6.PointTag, Value: b6.NewPointExpressionFromLatLng(s2LatLngE7{515000000, -1000000}.toS2())})
+			var p FullPoint
+			p.Tags.FromFeature(point, sb, nt)
+			n = p.Marshal(&osm, buf)
+			tags[i] = PointTagFull
+		}
+		records[i] = buf[:n]
+		b.Map.Reserve(e.value, tags[i], n)
+	}
+	b.Map.FinishReservation()
+	out := encoding.NewBufferWithData(nil)
+	end, err := b.Map.WriteHeader(out, 0)
+	vAssert(err == nil, "WriteHeader")
+	for i, e := range entries {
+		vAssert(b.Map.WriteItem(e.value, tags[i], records[i], out) == nil, "WriteItem")
+	}
+	data := out.Bytes()
+	for len(data) < int(end) {
+		data = append(data, 0)
+	}
+	return &featureBlock{FeatureBlock: FeatureBlock{FeatureBlockHeader: b.Header, Map: encoding.NewUint64Map(data)}, Strings: st, NamespaceTable: nt}
+}
+
+// vhC17PointValue: 1 (quick) / 2 free low bits, bit 63 clear or set.
+func vhC17PointValue(name string) uint64 {
+	v := vU64(name)
+	low := v & uint64(1+2*vTier())
+	vAssume(v == low || v == 1<<63|low)
+	return v
+}
+
+// Point lookups over the blocks of a base index and an overlay index in either
+// merge order: two blocks of one namespace hold 1..2 and 1 (thorough 1..2) entries, each a
+// point or only the references to a point; a point is found by its ID exactly
+// when some block holds it as a point, whichever other blocks mention it and
+// in whichever order the blocks were merged.
+//
+//vh:steps=8000000 split=4
+func VH_C17_PointsAcrossBlocks() {
+	nt := vhNamespaceTable()
+	sb, st := vhStringTable("#amenity", "cafe", b6.PointTag)
+	var blocks []*featureBlock
+	var all []vhPointEntry
+	for bi := 0; bi < 2; bi++ {
+		n := 1
+		if bi == 0 || vTier() == 1 {
+			n = 1 + vChoice("n", 2)
+		}
+		var entries []vhPointEntry
+		for i := 0; i < n; i++ {
+			e := vhPointEntry{value: vhC17PointValue("value"), refsOnly: vBool("refsonly")}
+			for _, o := range entries {
+				vAssume(o.value != e.value) // one entry per point in a file
+			}
+			for _, o := range all {
+				vAssume(o.value != e.value || o.refsOnly || e.refsOnly) // a point lives in one file
+			}
+			entries = append(entries, e)
+		}
+		all = append(all, entries...)
+		blocks = append(blocks, vhPointBlock(nt, vhNSA, sb, st, entries))
+	}
+	f := &FeaturesByID{base: emptyFeaturesByID{}}
+	f.features[b6.FeatureTypePoint] = blocks
+	vReach("merged")
+	probe := b6.FeatureID{Type: b6.FeatureTypePoint, Namespace: vhNSA, Value: vhC17PointValue("probe")}
+	stored := false
+	for _, e := range all {
+		stored = vOr(stored, vAnd(!e.refsOnly, e.value == probe.Value))
+	}
+	found := f.FindFeatureByID(probe)
+	vAssert((found != nil) == stored, "a point is found exactly when some file holds it as a point")
+	if found != nil {
+		vAssert(found.FeatureID() == probe, "with its own id")
+		vAssert(found.Get("#amenity").Value.String() == "cafe", "and its own tags")
+	}
+	if stored {
+		vAssert(f.HasFeatureWithID(probe), "HasFeatureWithID agrees with FindFeatureByID for a point of a later file")
 	}
 }
